@@ -30,7 +30,8 @@ CHECKS = {
          "4 C03", "Coq-verified per-instance checker + engine model correspondence (universal soundness partial)"),
  "C05": ("on the faithful engine model: lub / permutation invariance / monotonicity proved for every hierarchy and "
          "any number of chain arguments (identity and nested covariant contexts, Top/Bottom included), glb for the "
-         "contravariant reading, above/below characterised; C05_fix_least: fix() of any single-polarity type binds "
+         "contravariant reading, and C05_*_octx for ARBITRARY one-hole contexts of any arity, variance and depth with "
+         "concrete siblings (polarity decides lub vs glb); above/below characterised; C05_fix_least: fix() of any single-polarity type binds "
          "exactly the polarity-appropriate bounds and is below every instantiation within the bounds; explicit fuel "
          "bounds; remaining argument contexts decided per generated case on model and implementation",
          "4 C05", "Coq proof by induction over the argument list on the engine model + correspondence + oracle"),
@@ -64,8 +65,11 @@ CHECKS = {
  "C04": ("expression trees are compiled to the engine program of their construction sequence; Language.parse + "
          "Expr.fix of /repo is compared with the faithful engine model on the complete typed tree; every application "
          "node of every accepted expression is validated by the checker proved sound w.r.t. Sub (all groundings from a "
-         "finite pool), operator leaves are matched against their declared signature, annotations against Sub; the "
-         "unconditional theorem is partial as for C03",
+         "finite pool), operator leaves are matched against their declared signature, annotations against Sub; "
+         "C04_full / C04_sub_full prove the statement unconditionally (every application node, every leaf an instance "
+         "of its signature, every annotation, the re-fixed tree, and every declared subtype constraint of a leaf) for "
+         "operators that are constraint-free or carry subtype constraints x <= A / x < A; elimination-constrained "
+         "operators per instance (verified checker)",
          "4 C04", "Coq-verified per-node checker + engine model correspondence through the real parser"),
  "C15": ("de Bruijn lambda-terms with composite operators: primitive() modelled as unfold + applicative-order "
          "normalisation; result has no composite operator and no redex, equals every normal form reachable by any "
@@ -94,7 +98,8 @@ CHECKS = {
  "C11": ("query generation modelled (assign_variables incl. unfold_tree, the chronology worklist, :depends vs "
          ":depends?, via/subtypeOf unions, TypeUnion/Bag reductions reused from C20) together with a set semantics of "
          "the generated BGP fragment and a verified matcher: for tree and DAG tasks the query matches iff the task's "
-         "steps can be assigned as the property says (C11_query_spec, C11_task_spec), self-match, monotonicity, absent "
+         "steps can be assigned as the property says (C11_query_spec, C11_task_spec), self-match, monotonicity incl. "
+         "dropping an inner step on graphs whose depends is transitive (C11_mono_inner, tied to C09's closure), absent "
          "operator/type never match, every tested predicate is emitted; on /repo the generated SPARQL text is read back "
          "into a pattern list, evaluated by the verified matcher, by rdflib on the flattened pattern and by rdflib on the "
          "deployed query, in URI, nested-list and string-shortcut notations under the by_* switches",
